@@ -347,9 +347,16 @@ func RunC20(ctx *core.Ctx) *core.Violation {
 		}
 		sched.SetInnerPeriods(periods)
 		ctx.Count("probe_inner_yield_runs")
+		// and, for two tasks in three, right after every release of a lock, pool or atomic
+		rel := make([]bool, n)
+		for i := range rel {
+			rel[i] = t.Chance(2, 3)
+		}
+		sched.SetReleaseParking(rel)
 	}
 	sr := sched.Run(t, bodies)
 	sched.SetInnerPeriods(nil)
+	sched.SetReleaseParking(nil)
 	if sr.Hang != "" {
 		// (the task is still spinning: this process is spoilt, the driver leaves it at once)
 		return &core.Violation{Class: "C20/hang", Facts: "in=" + shortFnName(sr.HangIn), Msg: "the call never returns: " + sr.Hang}
